@@ -199,7 +199,7 @@ type MonStore struct {
 	proj        *Projection
 	Batches     []BatchRec
 	step        *atomic.Int64
-	gate        Gate
+	gate        atomic.Pointer[Gate]
 	gen         *atomic.Int64
 	insertCalls int
 	FailInsert  int // 1-based index of the InsertLogs call that fails (0 = never)
@@ -209,6 +209,8 @@ type MonStore struct {
 
 var errInjectedStore = errors.New("injected store failure")
 var errGenerationDead = errors.New("generation died")
+
+func (s *MonStore) SetGate(g Gate) { s.gate.Store(&g) }
 
 func NewMonStore(step *atomic.Int64, gen *atomic.Int64) *MonStore {
 	return &MonStore{proj: NewProjection(), step: step, gen: gen}
@@ -261,8 +263,8 @@ func (s *MonStore) GetAccount(ctx context.Context, address string) (*ledger.Acco
 }
 
 func (s *MonStore) InsertLogs(ctx context.Context, logs ...*ledger.ChainedLog) error {
-	if s.gate != nil {
-		if err := s.gate(ctx, "persist.begin"); err != nil {
+	if g := s.gate.Load(); g != nil {
+		if err := (*g)(ctx, "persist.begin"); err != nil {
 			return err
 		}
 	}
@@ -283,8 +285,8 @@ func (s *MonStore) InsertLogs(ctx context.Context, logs ...*ledger.ChainedLog) e
 	}
 	s.Batches = append(s.Batches, rec)
 	s.mu.Unlock()
-	if s.gate != nil {
-		if err := s.gate(ctx, "persist.end"); err != nil {
+	if g := s.gate.Load(); g != nil {
+		if err := (*g)(ctx, "persist.end"); err != nil {
 			return err
 		}
 	}
